@@ -376,9 +376,10 @@ class NdArr:
 
     _zpy = True
 
-    def __init__(self, shape, fill=0):
+    def __init__(self, shape, fill=0, kind=None):
         self.a = _np.empty(shape, dtype=object)
         self.a.fill(fill)
+        self.kind = kind  # 'int' / 'float': values assigned as text tokens are parsed (numpy does that on assignment)
 
     @staticmethod
     def _ix(idx):
@@ -407,6 +408,12 @@ class NdArr:
         return v
 
     def z_setitem(self, it, idx, value):
+        if getattr(self, "kind", None) in ("int", "float") and (isinstance(value, str) or hasattr(value, "pieces")):
+            from .symstr import parse_number
+
+            value = parse_number(value, self.kind)
+        if isinstance(value, NdArr):
+            value = value.a
         try:
             self.a[self._ix(idx)] = value
         except IndexError as e:
